@@ -1,4 +1,9 @@
+#[cfg(not(sylt_verif))]
 use std::{collections::HashMap, fmt::Display};
+#[cfg(sylt_verif)]
+use std::fmt::Display;
+#[cfg(sylt_verif)]
+use sylt_common::verif_hash::HashMap;
 
 use crate::name_resolution::*;
 use crate::typechecker::TypeChecker;
